@@ -372,6 +372,50 @@ def r11_leap_polarity(ctx):
                         ("" if pol else "not ") + U(t)[:50]
                         for t, pol in conds)) if conds else ""),
                 _props_for(f) + ("C12", "C15"))
+        # a function that chooses between a table and its _LEAP partner by
+        # a leap test reads those tables nowhere else: a read outside the
+        # selection serves leap and common years alike
+        selected = set()        # ids of attribute nodes inside a selection
+        sel_tables = set()
+        for n in walk_no_nested(f.node):
+            if not isinstance(n, (ast.If, ast.IfExp)):
+                continue
+            atoms_ = _leap_atoms(ctx, f, n.test, leapvars)
+            if not atoms_:
+                continue
+            if isinstance(n, ast.IfExp):
+                tb_, fb_ = [n.body], [n.orelse]
+            else:
+                tb_ = n.body
+                fb_, _k = _false_branch(f, n)
+            for a, x in _cal_attrs_in(ctx, f, list(tb_) + list(fb_)):
+                if a in pairs or a[:-5] in pairs:
+                    selected.add(id(x))
+                    sel_tables.add(a[:-5] if a.endswith("_LEAP") else a)
+        if sel_tables:
+            for a, x in _cal_attrs_in(ctx, f, [f.node]):
+                stem = a[:-5] if a.endswith("_LEAP") else a
+                if stem in sel_tables and id(x) not in selected:
+                    # where there is no year there is nothing to test: the
+                    # common-year table under `year is None` is the contract
+                    from ..flow import path_conds as _pc2
+                    if not a.endswith("_LEAP") and any(
+                            isinstance(t, ast.Compare) and len(t.ops) == 1
+                            and ((isinstance(t.ops[0], ast.Is) and pol) or
+                                 (isinstance(t.ops[0], ast.IsNot) and
+                                  not pol)) and "year" in U(t.left) and
+                            U(t.comparators[0]) == "None"
+                            for t, pol in _pc2(x)):
+                        continue
+                    rep.anchor(rule, "leap-selected tables")
+                    rep.violation(
+                        rule, ctx.fkey(f, x, "outside-selection"),
+                        f.loc(x),
+                        "%s chooses between %s and %s_LEAP by a leap test "
+                        "but also reads %s outside that choice (%s): there "
+                        "the same table serves leap and common years" % (
+                            f.qual, stem, stem, a, f.loc(x)),
+                        _props_for(f) + ("C02", "C12", "C15"))
         for n in walk_no_nested(f.node):
             test = None
             if isinstance(n, ast.If):
